@@ -324,7 +324,64 @@ def same_source_two_roles(stmts) -> bool:
             return any(walk(x) for x in e[1])
         return False
 
-    return any(walk(s[3]) for s in stmts if s[0] == "decl")
+    def exprs_of(s):
+        if s[0] == "decl":
+            return [s[3]]
+        if s[0] == "write":
+            return [s[2]] + ([s[3]] if s[3] is not None else [])
+        if s[0] == "latch":
+            return [s[2], s[3], s[4]]
+        if s[0] == "enable":
+            return [s[2]]
+        if s[0] in ("for", "func"):
+            out = []
+            for b in s[3]:
+                out += exprs_of(b)
+            if s[0] == "func" and s[4] is not None:
+                out.append(s[4])
+            return out
+        return []
+
+    for s in stmts:
+        for e in exprs_of(s):
+            if walk(e):
+                return True
+    # a member of a potential wire merge (sum of simple same-type sources, bundle literal) that is
+    # also consumed elsewhere needs two colours as well
+    from ..gen import referenced_names
+
+    refs = referenced_names(stmts)
+    types = {s[2]: s[3][1] for s in stmts if s[0] == "decl" and s[3][0] == "siglit"}
+
+    def leaves(e, acc):
+        if e[0] == "bin" and e[1] == "+":
+            leaves(e[2], acc)
+            leaves(e[3], acc)
+        else:
+            acc.append(e)
+
+    def merges(e) -> bool:
+        if not isinstance(e, list) or not e:
+            return False
+        if e[0] == "bin" and e[1] == "+":
+            acc: list = []
+            leaves(e, acc)
+            names = [x[1] for x in acc if x[0] == "var" and x[1] in types]
+            by_type: dict = {}
+            for n in names:
+                by_type.setdefault(types[n], []).append(n)
+            for g in by_type.values():
+                if len(g) >= 2 and any(refs.get(n, 0) > 1 for n in g):
+                    return True
+            return any(merges(x) for x in acc if x[0] != "var")
+        return any(merges(x) for x in e[1:] if isinstance(x, list) and x and isinstance(x[0], str)) or \
+            any(merges(y) for x in e[1:] if isinstance(x, list) and x and isinstance(x[0], list) for y in x)
+
+    for s in stmts:
+        for e in exprs_of(s):
+            if merges(e):
+                return True
+    return False
 
 
 def static_tags(stmts) -> set:
